@@ -41,7 +41,7 @@ def bounds(run):
           "stft": {"size": "1..%d" % run.pick(4, 6), "input_length": "0..%d" % run.pick(7, 10)}}
 
 
-WKINDS = ["none", "list", "tuple", "callable", "generator", "stream", "callable-shared"]
+WKINDS = ["none", "list", "tuple", "callable", "generator", "stream", "callable-shared", "callable-iterable"]
 WVALS = {"ramp": lambda i, n: Q(i + 1, 2), "mixed": lambda i, n: [Q(1, 2), Q(-1), Q(0), Q(2), Q(-3, 4)][i % 5],
          "zeros": lambda i, n: Q(0)}
 CONT = ["list", "tuple", "iter", "deque"]
@@ -115,6 +115,16 @@ def make_window(kind, vals, calls):
       return shared              # the very same list object at every call (a memoised window)
     wshared.shared = shared
     return wshared
+  if kind == "callable-iterable":
+    class Factory(object):
+      """Callable AND iterable, but no Stream - like the library's own ``window`` StrategyDict: it
+      is a window *function* and must be called with the size, not iterated."""
+      def __call__(self, size):
+        calls.append(size)
+        return list(vals)
+      def __iter__(self):
+        return iter([self.__call__, self.__call__])
+    return Factory()
   def wfunc(size):
     calls.append(size)
     return list(vals)
@@ -136,7 +146,7 @@ def gen_ola(run):
       for m in range(0, mmax + 1):
         for wk in WKINDS:
           for wv in (["ramp"] if wk == "none" else list(WVALS)):
-            if wk not in ("list", "callable", "callable-shared") and wv != "ramp":
+            if wk not in ("list", "callable", "callable-shared", "callable-iterable") and wv != "ramp":
               continue
             for normalize in (True, False, None):
               for size_given in (True, False):
@@ -265,7 +275,7 @@ def gen_stft(run):
         for func in FUNCS:
           for trans in (False, True, "pad"):
             for ba in (False, True):
-              for wk in ("none", "list", "callable"):
+              for wk in ("none", "list", "callable", "callable-iterable"):
                 for ola in ("list", "none", "fake"):
                   for ola_wnd in ("absent", "None", "list"):
                     for ola_norm in ("absent", False, True):
@@ -326,15 +336,16 @@ def run_stft(case):
       kws["ola_" + k] = v
   nt = True
   try:
+    callkw = {}
     if style == "direct":
-      res = stft(func, **kws)(list(x))
+      proc = stft(func, **kws)
     elif style == "decorator":
       dec = stft(**kws)
-      res = dec(func)(list(x))
+      proc = dec(func)
     elif style == "partial-chain":
       a = {k: v for k, v in kws.items() if k in ("size", "hop", "wnd")}
       b = {k: v for k, v in kws.items() if k not in a}
-      res = stft(**b)(**a)(func)(list(x))
+      proc = stft(**b)(**a)(func)
     elif style == "partial-reassign":
       # every option is first given a wrong value and then reassigned by a later partial step
       wrong = dict(kws, size=size + 2, hop=1, wnd=[Q(9)] * (size + 2), ola_wnd=[Q(7)] * (size + 2),
@@ -347,13 +358,14 @@ def run_stft(case):
       if kws["ola"] is not None:
         right.setdefault("ola_wnd", None)
         right.setdefault("ola_normalize", True)
-      res = stft(**wrong)(**right)(func)(list(x))
+      proc = stft(**wrong)(**right)(func)
     else:
       wrong = dict(kws, size=size + 3)
       wrong.pop("hop", None)
-      over = {"size": size}
-      if hop is not None: over["hop"] = hop
-      res = stft(func, **wrong)(list(x), **over)
+      callkw = {"size": size}
+      if hop is not None: callkw["hop"] = hop
+      proc = stft(func, **wrong)
+    res = proc(list(x), **callkw)
     if not isinstance(res, Stream):
       return bad("stft:type", "the STFT processor must return a Stream", "Stream", type(res).__name__)
     # snapshot every item as it is produced (block containers are reused by design)
@@ -361,6 +373,21 @@ def run_stft(case):
   except Exception as exc:
     return bad("stft:exception:" + type(exc).__name__, "STFT wrapper raised", None,
                {"exc": type(exc).__name__, "msg": str(exc)[:200]})
+  # the processor is an ordinary function: a second call with the same signal gives the same result
+  # (generator / Stream windows are consumed by the first call and excluded)
+  if wk not in ("generator", "stream"):
+    keep = (list(log), list(fake_calls), list(wcalls))
+    try:
+      res2 = proc(list(x), **callkw)
+      got2 = [list(v) if olak == "none" else v for v in res2]
+    except Exception as exc:
+      return bad("stft:second-call:" + type(exc).__name__, "calling the same STFT processor a second time raised",
+                 None, {"exc": type(exc).__name__, "msg": str(exc)[:200]})
+    norm = lambda items: [[lift(v) for v in b] if isinstance(b, list) else (b if isinstance(b, str) else lift(b)) for b in items]
+    if norm(got2) != norm(got):
+      return bad("stft:second-call", "calling the same STFT processor twice on the same signal gives different results",
+                 [str(v) for v in got[:4]], [str(v) for v in got2[:4]])
+    log[:], fake_calls[:], wcalls[:] = keep
   # ---- reference
   h = size if hop is None else hop
   blks = ref_blocks(list(x), size, h, 0.0)
